@@ -237,6 +237,9 @@ func genC10(t *core.Tape, tier string) *Scenario {
 		q.ID = callID(1)
 		q.ReuseRequestOf = p.ID
 		q.Deadline = p.Deadline/time.Duration(2+t.Choose(1000, "resend.div")) + 1
+		if t.Bool(1, 3, "resend.without.deadline") {
+			q.Deadline = 0 // ... or with no deadline at all: then no timeout may be sent
+		}
 		sc.Calls = append(sc.Calls, &q)
 		sc.Notes["request_object_resent"]++
 	}
